@@ -142,6 +142,38 @@ Example escape_sound_example_filters :
                   ++ [38; 108; 116; 59; 98; 38; 103; 116; 59; 32].
 Proof. split; [reflexivity|]. eexists. split; vm_compute; reflexivity. Qed.
 
+(* maps and unpacking: a plain-data context holding a map whose keys and (nested) values carry all four
+   metacharacters - d = {"k'": "<i>", "b": ['a"b', 1]}.  The program prints the whole map, a map literal
+   built from x, the pairs of d|items through an unpacking loop target, both halves of an unpacking
+   `set` (the second through an attribute and a subscript lookup) and the second key of d obtained by
+   unpacking the map itself in a `with`.  Without auto-escaping the text is
+   {'b': ['a"b', 1], "k'": '<i>'}{'x': '<b>'}b['a"b', 1]k'<i><b>['a"b', 1]<i>k'
+   (quotes chosen by the Python-style printer included); with it, exactly the escaped form of that. *)
+Definition ex_map : value :=
+  VMap (map_of_pairs [ (VStr false [107; 39], VStr false [60; 105; 62]);
+                       (VStr false [98], VList [VStr false [97; 34; 98]; VInt 1]) ]).
+Definition ex_ctx3 := mkCfg Lenient [(100, VStr false [60; 98; 62]); (110, ex_map)] true.
+Definition ex_prog3 : list stmt :=
+  [ SEmit (EVar 110);
+    SEmit (EMap [(EConst (LStr [120]), EVar 100)]);
+    SFor (TPair 111 112) (EFilter F_items (EVar 110) []) None [SEmit (EVar 111); SEmit (EVar 112)] None false;
+    SSet (TPair 113 114) (EList [EVar 100; EVar 110]);
+    SEmit (EVar 113); SEmit (EAttr (EVar 114) 1098); SEmit (EItem (EVar 114) (EConst (LStr [107; 39])));
+    SWith [(TPair 115 116, EVar 110)] [SEmit (EVar 116)] ].
+Example escape_sound_example_maps :
+  safe_free ex_prog3 = true /\ forallb (fun p => data_value (snd p)) (c_root ex_ctx3) = true /\
+  exists s0 s, run (mkCfg Lenient (c_root ex_ctx3) false) 30 ex_prog3 = Ok s0 /\ run ex_ctx3 30 ex_prog3 = Ok s /\
+    output_of s0 = [123; 39; 98; 39; 58; 32; 91; 39; 97; 34; 98; 39; 44; 32; 49; 93; 44; 32; 34; 107; 39; 34; 58; 32;
+                    39; 60; 105; 62; 39; 125;  123; 39; 120; 39; 58; 32; 39; 60; 98; 62; 39; 125;
+                    98; 91; 39; 97; 34; 98; 39; 44; 32; 49; 93; 107; 39; 60; 105; 62;
+                    60; 98; 62; 91; 39; 97; 34; 98; 39; 44; 32; 49; 93; 60; 105; 62;  107; 39] /\
+    output_of s = html_escape (output_of s0) /\ clean (output_of s) = true.
+Proof.
+  split; [reflexivity|]. split; [reflexivity|]. eexists. eexists.
+  split; [vm_compute; reflexivity|]. split; [vm_compute; reflexivity|].
+  split; [vm_compute; reflexivity|]. split; vm_compute; reflexivity.
+Qed.
+
 (* the restriction to the safe-marking-free fragment is necessary: x|safe prints the data raw *)
 Example safe_filter_is_outside_the_fragment :
   exists s, run ex_ctx 30 [SEmit (EFilter F_safe (EVar 100) [])] = Ok s /\ output_of s = [60; 98; 62].
